@@ -30,7 +30,7 @@ var EdgeOperands = [][]byte{
 	{0xff, 0xff, 0xff, 0xff},       // min 4-byte
 	{0x00, 0x00, 0x00, 0x80, 0x00}, // 5-byte 2^31
 	{0x01, 0x02, 0x03, 0x04, 0x05, 0x06, 0x07, 0x08, 0x09}, // 9-byte number
-	{0xde, 0xad, 0xbe},             // 3-byte string
+	{0xde, 0xad, 0xbe},                                     // 3-byte string
 	{0xff, 0xff, 0xff, 0xff, 0x00},                         // 2^32-1
 	{0x00, 0x00, 0x00, 0x00, 0x01},                         // 2^32
 	{0xff, 0xff, 0xff, 0xff, 0xff, 0xff, 0xff, 0x7f},       // 2^63-1
